@@ -99,6 +99,8 @@ type World struct {
 	AppHashes   [][]byte
 	TxResults   []TxResult
 	SkipCheckTx bool // C01: node B does not run mempool checks
+	AliasTo     string
+	Alias       map[string]string // aliased property -> params kind whose update makes it count
 }
 
 // TxResult is the consensus-relevant part of a DeliverTx response.
@@ -110,14 +112,46 @@ type TxResult struct {
 	GasUsed   int64
 }
 
+// Alias: oracles of other properties run as probes of this one. A finding of an
+// aliased property counts for AliasTo once a parameter update of the named module
+// has been applied in this case ("after a successful update every fee check, limit
+// check, quorum tally and fee split uses the new values"); before that it is the
+// other property's business and only ends the case.
+func (w *World) aliasProp(prop string) (string, bool) {
+	if w.AliasTo == "" || prop == w.AliasTo {
+		return prop, true
+	}
+	cls, ok := w.Alias[prop]
+	if !ok {
+		return prop, true
+	}
+	if w.Classes["gov.passed."+cls] > 0 {
+		return w.AliasTo, true
+	}
+	w.Diverged = true
+	return prop, false
+}
+
 func (w *World) Fail(prop, format string, args ...interface{}) {
 	msg := fmt.Sprintf(format, args...)
+	if p, keep := w.aliasProp(prop); !keep {
+		return
+	} else if p != prop {
+		msg = fmt.Sprintf("[%s oracle, after a parameter update] %s", prop, msg)
+		prop = p
+	}
 	w.Findings = append(w.Findings, Finding{Prop: prop, Msg: msg, At: fmt.Sprintf("block %d tx %d", w.BlockIdx, w.TxIdx)})
 }
 
 // FailSig records a finding that matches a known-finding signature predicate.
 func (w *World) FailSig(prop, sig, format string, args ...interface{}) {
 	msg := fmt.Sprintf(format, args...)
+	if p, keep := w.aliasProp(prop); !keep {
+		return
+	} else if p != prop {
+		msg = fmt.Sprintf("[%s oracle, after a parameter update] %s", prop, msg)
+		prop = p
+	}
 	w.Findings = append(w.Findings, Finding{Prop: prop, Sig: sig, Msg: msg, At: fmt.Sprintf("block %d tx %d", w.BlockIdx, w.TxIdx)})
 }
 
